@@ -5,7 +5,10 @@ ASSUMPTIONS = G.ASSUMPTIONS
 
 def classify(res, scs, reps, mons):
     G.replay_mismatches(res, scs, reps)
-    for sc, mo in zip(scs, mons):
+    for sc, rp, mo in zip(scs, reps, mons):
+        for kind, text in G.liveness_verdicts(sc, rp['mapped']):
+            if kind == 'blocked-publish':
+                res.violations.append(dict(signature='C05/blocking-publish-does-not-return', what=text, case=G.readable(sc, mo['hist'])))
         for i, code in mo['one'] + mo['blocking']:
             sig = {1: 'C05/two-in-flight', 2: 'C05/two-in-flight-while-closing(D13)', 10: 'C05/blocking-publish-returned-before-ack', 11: 'C05/blocking-order'}[code]
             res.violations.append(dict(signature=sig, what=G.VNAME[code], case=G.readable(sc, mo['hist'], upto=i)))
